@@ -16,6 +16,13 @@ def ref_archs(desc):
     return out
 
 
+def closures_identify(desc):
+    """True when different admissible assignments never have the same (node set, connection edges): only then is
+    "the architecture" of an instance readable from its nodes (templates in which unselected options derive each
+    other in a loop give the same node set for several options)."""
+    return len(ref_archs(desc)) == len(specsem.architectures(desc))
+
+
 def ref_archs_dv(desc):
     """... extended with all index combinations of the discrete design-variable nodes that exist."""
     out = set()
@@ -111,6 +118,7 @@ def decode_member(desc, tier, seed, props=('C01', 'C03', 'C07', 'C16'), encoders
     """Contracts on get_graph for every vector of the declared space of one corpus member."""
     ctx = Ctx(desc)
     ref = ref_archs(desc)
+    ident = closures_identify(desc)
     refnodes = {n for n, _ in ref}
     for enc in encoders:
         try:
@@ -166,7 +174,7 @@ def decode_member(desc, tier, seed, props=('C01', 'C03', 'C07', 'C16'), encoders
                     ctx.check('C03.vector-determines-architecture', seen[key] == a_dv, wit,
                               'same corrected vector, different architectures', nt)
                 seen[key] = a_dv
-                if 'C03' in props and all(dv.is_discrete for dv in dvs):   # continuous values are not part of a_dv
+                if 'C03' in props and all(dv.is_discrete for dv in dvs) and ident:   # continuous values are not part of a_dv
                     prev = by_arch.setdefault(a_dv, key)
                     ctx.check('C03.distinct-vectors-distinct-architectures', prev == key, wit,
                               f'corrected vectors {list(prev)} and {list(key)} denote the same architecture', nt)
